@@ -60,6 +60,7 @@ type sessCfg struct {
 	NomStep    uint32                 `json:"nomStep"`
 	Lite       map[string]bool        `json:"lite"`
 	CheckPrio  map[string]bool        `json:"checkPrio"`
+	LiteDef    map[string]bool        `json:"liteDefault"` // the lite agent keeps its default disconnected timeout (no explicit option)
 	Walk       walkCfg                `json:"walk"`
 	Tr         trCfg                  `json:"tr"`
 }
@@ -337,7 +338,7 @@ func runSession(t *testing.T, cfg *sessCfg, job *sessJob, rng *mrand.Rand, sched
 			ice.WithNetworkTypes([]ice.NetworkType{ice.NetworkTypeUDP4}),
 			ice.WithLoggerFactory(lf), ice.WithLocalCredentials(u, p),
 			ice.WithMaxBindingRequests(uint16(cfg.MaxReq)), //nolint:gosec
-			ice.WithDisconnectedTimeout(ms(cfg.Tr.D)), ice.WithFailedTimeout(ms(cfg.Tr.F)), ice.WithKeepaliveInterval(ms(cfg.Tr.K)),
+			ice.WithFailedTimeout(ms(cfg.Tr.F)), ice.WithKeepaliveInterval(ms(cfg.Tr.K)),
 			ice.WithHostAcceptanceMinWait(ms(acc["host"])), ice.WithSrflxAcceptanceMinWait(ms(acc["srflx"])),
 			ice.WithPrflxAcceptanceMinWait(ms(acc["prflx"])), ice.WithRelayAcceptanceMinWait(ms(acc["relay"])),
 		}
@@ -355,6 +356,9 @@ func runSession(t *testing.T, cfg *sessCfg, job *sessJob, rng *mrand.Rand, sched
 
 				return S[n].nomCtr
 			}))
+		}
+		if !(cfg.Lite[n] && cfg.LiteDef[n]) {
+			opts = append(opts, ice.WithDisconnectedTimeout(ms(cfg.Tr.D)))
 		}
 		if cfg.Lite[n] {
 			opts = append(opts, ice.WithICELite(true))
